@@ -35,7 +35,9 @@ RULE = ("case = (state kind, n, h[, a], parameters = scale*N(0,1) with all biase
         "every public gradient method compared with the model "
         "and with central finite differences of an independently written NLL (Born rule through the dense Kronecker product); the model's rotated "
         "amplitude / probability compared with the same dense formula; permutation/split invariance; 1-D call form with the basis as str, "
-        "list and char-array row; bases=None on the complex / mixed state; pi_grad on both branches of `expand`; "
+        "list and char-array row; bases of a batch as list of lists / list[str] / 1-D str ndarray (string rows: refusal informational, proposed F23); "
+        "public rotated_gradient / am_grads / ph_grads; positive state: rotated bases handed to its methods are ignored (informational, scope note); "
+        "bases=None on the complex / mixed state; pi_grad on both branches of `expand`; "
         "argument forms (round 5): every integer / boolean option of a public call is drawn per case from a seeded stream (`aseed`; Python int, numpy "
         "integer scalars, 0-d numpy / torch integers; bool singleton, 0/1, numpy bools, 0-d bool arrays / tensors; keyword and positional): constructor "
         "sizes and `gpu` / `zero_weights`, `reduce` of effective_energy_gradient (both values), `eta` / `expand` of gamma_grad, `phase` / `expand` of "
